@@ -33,41 +33,32 @@ def run(ctx, config="default"):
     if D is None:
         ctx.missing("C14.S1", imodel.DISC_NEW, "disclosure constructor not found")
         return
-    dv = vals(D)
-    sites = imodel.text_sites(fx)
-    ctx.floor("C14.S1", "disclosure text format sites", len(sites), 2)
-    gens = set()
-    for (tf, b, n, pcs) in sites:
-        line = tf.term(b).get("line")
-        args = [x for (k, x) in pcs if k == "arg"]
-        if not args:
-            continue
-        for (host, p) in imodel.resolve_through_params(fx, tf, args[0]):
-            if p.kind == "call" and p.d["term"].get("resolved_local") and p.d["term"].get("resolved") in fx.fns and not [k for k in p.kids if peel(k).kind != "const"]:
-                gens.add(p.d["term"]["resolved"])
-                ctx.ok("C14.S1", host, "salt-is-first-arg", "the salt field of the disclosure text is the result of %s() called for this disclosure (in %s)" % (p.d["term"]["resolved"], host.name), line=line)
-            else:
-                src = [x.d.get("name") for x in walk(p) if x.kind == "field" and x.d.get("adt") in (imodel.ISTRUCT,)]
-                why = ("it is taken from issuer state `%s`" % src[0]) if src else ("it is %s" % vstr(p, 4))
-                ctx.finding("C14.S1", host, "salt-is-first-arg", "the salt field of the disclosure text is not a fresh generator call made for this disclosure: %s — salts can repeat across disclosures / issuances" % why, line=line)
+    import dtext
+    M = dtext.Model(fx, config)
+    obs, gens = dtext.salt_obligations(fx, M)
+    ctx.floor("C14.S1", "disclosure text forms evaluated", len(M.forms), 2)
+    for (ok, f_, what, msg, line) in obs:
+        if ok:
+            ctx.ok("C14.S1", f_, what, msg, line=line)
+        else:
+            ctx.finding("C14.S1", f_, what, msg, line=line)
+    gens = set(g_ for g_ in gens if g_)
     if len(gens) != 1:
         if gens:
             ctx.finding("C14.S1", D, "one-generator", "different salt sources are used: %s" % sorted(gens))
         return
     gname = list(gens)[0]
     G = fx.fn(gname)
-    # exactly one draw per disclosure: in the function that makes the call, one call site, not in a loop, on every path to return
-    hosts = [f for f in fx.fns.values() if not f.is_macro_generated() and f.name.startswith("disclosure::") and any(t.get("resolved") == gname for _, t in f.calls())]
-    for hf in hosts:
-        calls = [b for b, t in hf.calls() if t.get("resolved") == gname]
-        rets = cfg.return_blocks(hf)
-        once = len(calls) == 1 and calls[0] not in cfg.reach_strict(hf, calls[0]) and not any(r in cfg.reachable(hf, [0], removed_blocks=calls) for r in rets)
-        if once:
-            ctx.ok("C14.S1", hf, "exactly-one-salt", "exactly one call to %s on every path through %s" % (gname, hf.name), line=hf.term(calls[0]).get("line"))
+    # a thin wrapper that only forwards to the real generator (`fn next_salt() -> String { generate_salt() }`): judge what it forwards to
+    hops = 0
+    while G is not None and hops < 3:
+        rvg = peel(vals(G).return_value())
+        if rvg.kind == "call" and rvg.d["term"].get("resolved_local") and rvg.d["term"].get("resolved") in fx.fns and not rvg.kids and len([1 for _b, _t in G.calls()]) == 1:
+            gname = rvg.d["term"]["resolved"]
+            G = fx.fn(gname)
+            hops += 1
         else:
-            ctx.finding("C14.S1", hf, "exactly-one-salt", "%s does not draw exactly one salt on every path (%d call sites)" % (hf.name, len(calls)))
-    if not hosts:
-        ctx.finding("C14.S1", D, "exactly-one-salt", "no disclosure-building function calls the salt generator")
+            break
     # ---- S2 generator
     gv = vals(G)
     fills = [(b, t) for b, t in G.calls() if t.get("name") in ("fill_bytes", "try_fill_bytes", "fill") and t.get("trait") in ("rand::RngCore", "rand_core::RngCore", "rand::Rng")]
@@ -139,7 +130,7 @@ def run(ctx, config="default"):
         fields = rvn.d["agg"]["fields"]
         raw, h = rvn.kids[fields.index("raw_b64")], rvn.kids[fields.index("hash")]
         rawp, hp = peel(raw), peel(h)
-        ok1 = rawp.kind == "call" and rawp.d["term"].get("resolved") == "utils::base64url_encode" and derives_through(chain, host, rawp.kids[0], lambda x: x.kind == "call" and x.d["term"].get("resolved") == "std::fmt::format")
+        ok1 = rawp.kind == "call" and rawp.d["term"].get("resolved") == "utils::base64url_encode" and bool(M.forms) and not M.problems
         ok2 = hp.kind == "call" and hp.d["term"].get("resolved") == "utils::base64_hash" and peel(hp.kids[0]) is rawp
         if ok1 and ok2:
             ctx.ok("C14.S4", host, "digest-of-text", "hash = base64_hash(raw_b64.as_bytes()), raw_b64 = base64url_encode(disclosure text)")
